@@ -14,7 +14,10 @@ import (
 	"io"
 	"net"
 	"os"
+	"runtime"
+	"strconv"
 	"strings"
+	"sync"
 	"time"
 
 	mail "github.com/wneessen/go-mail"
@@ -62,6 +65,45 @@ type Cfg struct {
 	Logger   string   `json:"logger"` // capture (default), std, json
 	Fallback bool     `json:"fallback"`
 	Big      bool     `json:"-"` // attachments larger than every buffer on the way (content stalls)
+}
+
+// gate hooks of the smtp package (build tag verif), dispatched by goroutine
+var (
+	hookMu sync.Mutex
+	hooks  = map[int64]func(event, detail string){}
+)
+
+func goid() int64 {
+	var buf [64]byte
+	n := runtime.Stack(buf[:], false)
+	f := bytes.Fields(buf[:n])
+	if len(f) < 2 {
+		return -1
+	}
+	id, _ := strconv.ParseInt(string(f[1]), 10, 64)
+	return id
+}
+
+func setHook(id int64, h func(event, detail string)) {
+	hookMu.Lock()
+	defer hookMu.Unlock()
+	if h == nil {
+		delete(hooks, id)
+		return
+	}
+	hooks[id] = h
+}
+
+// InstallHooks routes smtp.VerifHook to the per-goroutine hooks of this package.
+func InstallHooks() {
+	smtp.VerifHook = func(event, detail string) {
+		hookMu.Lock()
+		h := hooks[goid()]
+		hookMu.Unlock()
+		if h != nil {
+			h(event, detail)
+		}
+	}
 }
 
 // Credentials of the one account the reference server knows.
@@ -494,6 +536,9 @@ func (rn *Runner) Run() {
 	// server script
 	faults := map[refsmtp.Key]refsmtp.Fault{}
 	for i, e := range sc.Env {
+		if e.C == "xclose" { // happens on the client side: the server only sees the connection go away
+			continue
+		}
 		faults[refsmtp.Key{V: e.V, M: e.M, R: e.R}] = refsmtp.Fault{K: i + 1, Class: e.C, Shape: e.Sh, Rot: cfg.Cs}
 		if e.C == "stall" || e.C == "cstall" {
 			rn.stall = true
@@ -687,6 +732,40 @@ func (rn *Runner) Run() {
 			}
 			if cfg.Logauth {
 				sc2.SetLogAuthData()
+			}
+			// "xclose": another goroutine closes the client right before the scripted command of the exchange
+			xclose := map[refsmtp.Key]bool{}
+			for _, e := range sc.Env {
+				if e.C == "xclose" {
+					xclose[refsmtp.Key{V: e.V, M: e.M, R: e.R}] = true
+				}
+			}
+			if len(xclose) > 0 {
+				j, started := 0, false
+				id := goid()
+				setHook(id, func(event, format string) {
+					if event != "cmd.pre" {
+						return
+					}
+					var k refsmtp.Key
+					switch { // smtp.Client.Auth sends the AUTH command and every response with the format "%s"
+					case format == "%s" && !started:
+						started, j = true, 0
+						k = refsmtp.Key{V: "AUTH"}
+					case format == "%s":
+						j++
+						k = refsmtp.Key{V: "AUTHRESP", R: j}
+					default:
+						return
+					}
+					if xclose[k] {
+						r.Emit("xclose")
+						done := make(chan struct{})
+						go func() { defer close(done); _ = sc2.Close() }()
+						<-done
+					}
+				})
+				defer setHook(id, nil)
 			}
 			aerr = sc2.Auth(rawMech(cfg.Authtype, host))
 		})
